@@ -232,6 +232,7 @@ CHECKS["C08"] = dict(
         dict(name="converge-concurrent", test="TestConvergeConcurrent", kind="rapid", crash_is_violation=True, checks={"quick": 40, "thorough": 2000}, shards=16, timeout={"quick": 900, "thorough": 3400}, records=["converge", "converge-concurrent"]),
         dict(name="converge-streams", test="TestConvergeStreams", kind="rapid", crash_is_violation=True, checks={"quick": 150, "thorough": 4000}, shards=16, timeout={"quick": 900, "thorough": 3400}, records=["converge-streams"], shrinktime="10s"),
         dict(name="converge", test="TestConverge", kind="rapid", crash_is_violation=True, checks={"quick": 2500, "thorough": 100000}, shards=16, timeout={"quick": 600, "thorough": 3000}),
+        dict(name="unbuildable", test="TestUnbuildableFirstConfig", kind="plain", crash_is_violation=True, timeout=600),
         dict(name="grpc", pkg="disc", test="TestGrpcE2E", kind="rapid", checks={"quick": 4, "thorough": 150}, shards=16, timeout={"quick": 900, "thorough": 3400}, shrinktime="60s", gomaxprocs=4, crash_is_violation=True),
     ],
 )
